@@ -18,9 +18,9 @@ deriving DecidableEq, Repr
 /-- does `s` start with `p`? -/
 def pre (p s : String) : Bool := p.toList.isPrefixOf s.toList
 
-/-- `.conflicts` / `.checkpoints` at the root, with the optional `.`, `/`, `./` lead the regexp allows -/
+/-- `.conflicts` / `.checkpoints` at the root, with the optional `/` or `./` lead the regexp allows -/
 def special (word s : String) : Bool :=
-  ["", ".", "/", "./"].any fun lead => s == lead ++ word || pre (lead ++ word ++ "/") s
+  ["", "/", "./"].any fun lead => s == lead ++ word || pre (lead ++ word ++ "/") s
 
 /-- `model.IsGeneratedFile` (`genFileRe`) as a direct predicate -/
 def isGenerated (s : String) : Bool :=
